@@ -9,13 +9,13 @@ import boot  # noqa: F401
 LEAN_FILE = "TrustCfg.lean"
 
 
-def _bundle(store):
+def _bundle(store, n=1):
     """a PreKeyBundle published from `store` (a LiteAxolotlStore): its identity, a fresh signed prekey and one-time prekey"""
     from axolotl.state.prekeybundle import PreKeyBundle
     from axolotl.util.keyhelper import KeyHelper
     ident = store.getIdentityKeyPair()
-    spk = KeyHelper.generateSignedPreKey(ident, 1)
-    pk = KeyHelper.generatePreKeys(1, 1)[0]
+    spk = KeyHelper.generateSignedPreKey(ident, n)
+    pk = KeyHelper.generatePreKeys(n, 1)[0]
     store.storeSignedPreKey(spk.getId(), spk)
     store.storePreKey(pk.getId(), pk)
     return PreKeyBundle(store.getLocalRegistrationId(), 1, pk.getId(), pk.getKeyPair().getPublicKey(), spk.getId(),
@@ -53,7 +53,31 @@ def probe():
             rebuilt = rk is not None and bytes(rk.getPublicKey().serialize()) == bytes(k2.getPublicKey().serialize())
         except Exception:
             rebuilt = False
-        return unknown, same, other, replaces, rebuilt
+        # an ordinary message that only the session state of the identity the contact had BEFORE decrypts: is that identity checked before
+        # the state becomes the current one again?  (me has a session with p1's identity; p1 answers, so that it can send ordinary messages;
+        # then p2's identity replaces p1's with automatic trust; then p1 sends an ordinary message on its old session)
+        checks_old = False
+        try:
+            c3 = "4917000003"
+            me_id = "4917000000"
+            mgr.create_session(c3, _bundle(p1, 2))
+            first = mgr.encrypt(c3, b"hello")
+            p1mgr = AxolotlManager(p1, c3)
+            p1mgr.decrypt_pkmsg(me_id, first.serialize(), True)
+            mgr.decrypt_msg(c3, p1mgr.encrypt(me_id, b"answer").serialize(), True)
+            mgr.create_session(c3, _bundle(p2, 2), autotrust=True)
+            late = p1mgr.encrypt(me_id, b"from the earlier identity").serialize()
+            refused = False
+            try:
+                mgr.decrypt_msg(c3, late, True)
+            except Exception as e:
+                refused = "Untrusted" in type(e).__name__
+            rk = me.loadSession(c3, 1).getSessionState().getRemoteIdentityKey()
+            still_new = rk is not None and bytes(rk.getPublicKey().serialize()) == bytes(k2.getPublicKey().serialize())
+            checks_old = refused and still_new
+        except Exception:
+            checks_old = False
+        return unknown, same, other, replaces, rebuilt, checks_old
     finally:
         shutil.rmtree(d, ignore_errors=True)
 
@@ -65,10 +89,11 @@ def generate():
         return "true" if x else "false"
     return "\n".join([
         "/- REGENERATED on every run by executing LiteIdentityKeyStore.isTrustedIdentity / saveIdentity and",
-        "   AxolotlManager.create_session(autotrust=True) of the current source on a scratch store with real key bundles — do not edit -/",
+        "   AxolotlManager.create_session(autotrust=True) / decrypt_msg of the current source on a scratch store with real key bundles and",
+        "   real messages — do not edit -/",
         "import YowsupVerif.Model.Trust",
         "namespace Yow.Gen",
-        "def trustCfg : Yow.Trust.Cfg := { trustUnknown := %s, trustSame := %s, trustOther := %s, saveReplaces := %s, rebuildAfterTrust := %s }" % tuple(b(v) for v in vals),
+        "def trustCfg : Yow.Trust.Cfg := { trustUnknown := %s, trustSame := %s, trustOther := %s, saveReplaces := %s, rebuildAfterTrust := %s, checksOldSessions := %s }" % tuple(b(v) for v in vals),
         "end Yow.Gen", ""])
 
 
